@@ -102,6 +102,14 @@ WalletOf(m, p, src) ==
                 seed |-> seed, mk |-> Ser256(mx.v.key), mc |-> mx.v.cc,
                 xprv |-> KeyStr(mx.v), xpub |-> KeyStr(NeuterX(mx.v)), src |-> src])
 
+(* ---------------- BIP43 / BIP44 / SLIP44 constants ---------------- *)
+(* m / purpose' / coin_type' / account' / change / address_index; purpose = 44', Bitcoin = coin 0', test nets = coin 1' *)
+(* (the library has no path builder: only these constants exist there; account, change, index < 256 in Bip44Path)     *)
+Bip44Purpose   == <<128, 0, 0, 44>>
+Slip44Bitcoin  == <<128, 0, 0, 0>>
+Slip44Testnet  == <<128, 0, 0, 1>>
+Bip44Path(coin, account, change, index) == <<Bip44Purpose, coin, <<128, 0, 0, account>>, <<0, 0, 0, change>>, <<0, 0, 0, index>> >>
+
 (* ---------------- calls and results ---------------- *)
 BlankCall == [op |-> "none", w |-> 0, p |-> <<>>, s |-> 0, m |-> <<>>, path |-> <<>>, key |-> <<>>, i |-> Zero4]
 NewCall(p, s)        == [BlankCall EXCEPT !.op = "new", !.p = p, !.s = s]
